@@ -6,16 +6,16 @@ BASELINE = BASELINE.replace(" --junitxml=<file>", "")
 
 CHECKS = {
  "C01": dict(tech="runtime monitor: independent NumPy spec-membership oracle on every emitted timestep + jax.eval_shape per configuration",
-             text="Exploration: every timestep (reset, mid, terminal incl. time-limit boundary) of rollouts under 7 policies over the configuration matrix is tested against the declared specs by an independent membership test; the shape/dtype half is decided for all keys/states of each configuration by eval_shape. Sampling of keys/actions, so 'held on what was observed'.",
+             text="Exploration: every timestep (reset, mid, terminal incl. time-limit boundary) of rollouts under 7 policies over the configuration matrix (thorough: plus random configurations per seed, very large instances and long planner-driven episodes) is tested against the declared specs by an independent membership test; the shape/dtype half is decided for all keys/states of each configuration by eval_shape. Sampling of keys/actions, so 'held on what was observed'.",
              note="Trusts NumPy comparison semantics and that jit outputs equal what users see; Sokoban default generator (network) not explored.", ref="§3 C01"),
  "C02": dict(tech="differential runtime monitor: repeated / reordered / fresh-instance calls and eager vs jit vs vmap vs scan executions compared; argument snapshots; jaxpr effect inspection",
-             text="Exploration: for sampled calls (reset keys; states at t=0, mid-episode, before LAST; legal and illegal actions) of every environment the result digests are compared across call histories on one object, fresh instances, and the four execution modes; caller pytrees are snapshotted around eager calls; jaxprs must be effect-free.",
+             text="Exploration: for sampled calls (reset keys; states at t=0, mid-episode, before LAST; legal and illegal actions) of every environment the result digests are compared across call histories on one object (incl. library wrappers used on the same object), fresh instances sharing their mutable constructor arguments, the environment as a static jit argument next to sibling instances, one state stepped twice in one trace, and the four execution modes; transitions in which something happens are executed eagerly; caller pytrees are snapshotted around eager calls; jaxprs must be effect-free.",
              note="Float leaves across differently compiled programs use rtol 1e-5; a one-time lazy-cache change of the env object is tolerated.", ref="§3 C02"),
  "C03": dict(tech="runtime monitor: trace automaton over step_type / reward / discount of whole episodes incl. post-terminal steps",
-             text="Exploration: every timestep of episodes under 6 policies over the configuration matrix (single- and multi-agent shapes, tiny time limits so that LAST-by-limit and LAST-by-other-reason both occur), plus 4 steps after LAST, is run through the FIRST/MID*/LAST automaton with the reward/discount clauses.",
+             text="Exploration: every timestep of episodes under 6 policies over the configuration matrix (single- and multi-agent shapes, tiny time limits so that LAST-by-limit and LAST-by-other-reason both occur), plus 4 steps after LAST, is run through the FIRST/MID*/LAST automaton with the reward/discount clauses; includes user RewardFn/DoneFn components, dead-locked teams, cleared mazes / filled boards and episodes whose natural end falls exactly on the time-limit step.",
              note="LBF truncation at its time limit is the only documented LAST with non-zero discount.", ref="§3 C03"),
  "C04": dict(tech="runtime monitor: action mask vs independent NumPy rule sheet on every visited state + enumeration of every action's reaction at probed states",
-             text="Exploration over the 21 masked environments: mask == rules entry by entry on all visited non-terminal states; at probed states every action (<=512; stratified sample beyond; per-agent single deviations) is stepped and the environment's reaction compared with the mask.",
+             text="Exploration over the 21 masked environments: mask == rules entry by entry on all visited non-terminal states; at probed states (nearly every state for small action spaces: the probe budget is counted in branch steps) every action (<=512; stratified sample beyond; per-agent single deviations with passive, loading and random partners) is stepped and the environment's reaction compared with the mask.",
              note="The rule sheets (DESIGN §4) are my reading of the documentation; PacMan's no-op column is not judged.", ref="§3 C04"),
  "C05": dict(tech="runtime monitor: documented effect of every rule-illegal action (enumerated at probed states) checked on (state, action, next state, timestep)",
              text="Exploration over the 20 environments of the statement: each illegal action met by probes / invalid-late rollouts is judged against the documented effect (terminate + reward + untouched state, or ignored move with position and holdings unchanged).",
@@ -33,34 +33,34 @@ CHECKS = {
              text="Exploration over 17 rule-defined environments: every transition of rollouts and probe branches is predicted by the reference model (deterministic fields exactly, stochastic fields as membership), plus enumerated synthetic inputs (all 2048 rows of length<=5 over exponents 0..6, random Tetris stacks).",
              note="Reference written from docs/DESIGN §4; where docs are silent the reading is stated in the model.", ref="§3 C09"),
  "C10": dict(tech="runtime monitor on generator outputs: invariants and solvability certificates (BFS connectivity, parity, exact cover, disjoint paths) per reset key; key-dependence by digest counting",
-             text="Exploration: all shipped offline generators x size matrix x 16 (quick) / 120 (thorough) keys; plus generate_solution feasibility for BinPack.",
+             text="Exploration: all shipped offline generators x size matrix (thorough: plus random configurations) x 600 (quick) / 3000 (thorough) keys per configuration (more where a configuration asks for it); plus generate_solution feasibility for BinPack.",
              note="Sokoban dataset generators need the network (not explored). Known open findings are listed in known_findings.json.", ref="§3 C10"),
  "C11": dict(tech="runtime monitor: index of the first LAST timestep vs configured time limit / structural horizon, with a survive policy using real one-step look-ahead",
-             text="Exploration: time_limit in {1,2,3,7,default} on the 12 time-limited environments (never later; earlier only with a model-computed other end reason) and the structural horizon of the 10 others; decided on logical step counts.",
+             text="Exploration: time_limit in {1,2,3,7,default} (built-in ints, NumPy / JAX scalars, and through jumanji.make overrides) on the 12 time-limited environments (never later; earlier only with a model-computed other end reason; natural end replayed exactly on the limit step) and the structural horizon of the 10 others; decided on logical step counts.",
              note="Very long default limits are only checked for 'never earlier' on the quick tier.", ref="§3 C11"),
  "C12": dict(tech="runtime monitor: independent NumPy observer recomputes each observation from the state returned with it",
              text="Exploration over all environments and observer/normalisation switches: every (state, observation) pair of rollouts is compared with the documented function of the state.",
              note="Mask contents are C04's job; here only the copy.", ref="§3 C12"),
  "C13": dict(tech="differential runtime monitor: AutoResetWrapper.step vs env.step / env.reset on derived keys, side by side; loop vs scan vs vmap; shadow key history",
-             text="Exploration on every environment (short-episode configurations), both next_obs_in_extras settings, runs spanning many episodes under python loop, lax.scan and vmap.",
+             text="Exploration on every environment (short-episode configurations, runs with mixed end reasons, completing players, a rewarded event on the very step that ends the episode, user wrappers and MultiToSingleWrapper in between), both next_obs_in_extras settings, runs spanning many episodes under python loop, lax.scan and vmap; derived keys compared within and across runs.",
              note="Fresh key accepted = split/fold_in of the terminal state's key; never the terminal or original key.", ref="§3 C13"),
  "C14": dict(tech="differential runtime monitor: VmapWrapper vs per-instance; VmapAutoResetWrapper vs VmapWrapper(AutoResetWrapper) on deliberately desynchronised batches; termination-pattern counting; recording render stub",
-             text="Exploration on every environment, batch sizes 3 (quick) / 1,2,5,8 (thorough), >=50 consecutive batched steps with none/some/all terminations all observed.",
+             text="Exploration on every environment, batch sizes 3 (quick) / 1,2,5,8 (thorough) plus big batches (64 quick; 32-256 thorough) on environments whose episodes end at random times, >=50 consecutive batched steps with none/some/all terminations all observed; the same wrapper objects used with other batch sizes; render with legacy and typed keys.",
              note="Float tolerance only across differently compiled programs.", ref="§3 C14"),
  "C15": dict(tech="differential runtime monitor: Gym / dm_env / MultiToSingle adapters vs the native API on the documented key schedule; space/spec membership",
-             text="Exploration on every environment (multi-agent behind MultiToSingle), several seeds, resets and steps; terminated/truncated semantics, FIRST conventions, re-seeding, sampled actions, aggregators.",
+             text="Exploration on every environment (multi-agent behind MultiToSingle with default and fractional aggregators), several seeds, resets and steps, 70/300 resets of one adapter object against the documented key schedule; terminated/truncated semantics, FIRST conventions, re-seeding, sampled actions, aggregators.",
              note="gym actions are judged after the adapter's own jnp.asarray conversion.", ref="§3 C15"),
  "C16": dict(tech="property-style runtime harness with an independent membership model + icontract contracts on the real spec methods (also under the repository's own specs tests)",
-             text="Exploration: hundreds (quick) / thousands (thorough) of generated leaf and nested specs x ~20 related operations each, boundary-adjacent values for every dtype, and all specs of the 23 environments.",
+             text="Exploration: hundreds (quick) / thousands (thorough) of generated leaf and nested specs x ~20 related operations each, boundary-adjacent values for every dtype (NumPy arrays, Python scalars and nested lists), full-range narrow-dtype discrete specs, and all specs of the 23 environments.",
              note="NaN and cross-class equality are outside the statement; subnormal neighbours are replaced by the smallest normal (XLA flushes subnormals).", ref="§3 C16"),
  "C17": dict(tech="exhaustive runtime enumeration against a geometric reference: every cube move on distinct-sticker cubes (sizes 2..7); BFS of the whole 2x2/3x3 sliding-puzzle state space through the real step",
-             text="Per (size, move) one execution on a distinct-label cube fixes the permutation for every colouring, so the cube-move part is universal; group identities, is_solved, encodings and generator reachability are checked on the same executions; sliding puzzles 2x2 fully, 3x3 fully on the thorough tier.",
+             text="Per (size, move) one execution on a distinct-label cube fixes the permutation for every colouring, so the cube-move part is universal; group identities, is_solved, encodings and generator reachability are checked on the same executions; rotated goals on even cube sizes; sliding puzzles 2x2 fully, 3x3 fully on the thorough tier, bounded sweeps of 4x4/5x5, ordered-looking non-goal boards, moves on and after the time-limit step.",
              note="Geometric reference uses the documented face/view conventions.", ref="§3 C17"),
  "C18": dict(tech="runtime contracts + generated id strings and register/make sequences against an independent id grammar; probe environment class recording constructor arguments",
-             text="Exploration: thousands of generated ids (allowed / disallowed alphabets, huge versions), random register/make/duplicate sequences with registry snapshots, and all shipped ids instantiated and compared across two make calls.",
+             text="Exploration: thousands of generated ids (allowed / disallowed alphabets, huge versions), random register/make/duplicate sequences with registry snapshots (None / falsy / array-valued kwargs, same class name in two modules), registrations holding shared generator objects (make, make with override, make again, all re-traced), and all shipped ids instantiated and compared across two make calls.",
              note="Sokoban-v0 needs its dataset (network) and is reported as not explored.", ref="§3 C18"),
  "C19": dict(tech="runtime contracts + law-based harness on generated pytrees and real environment states",
-             text="Exploration: random nests (dict/list/tuple/namedtuple, rank 0-3, bool/int/float) and stacked real states of the 23 environments through transpose/slice/add_element/is_equal_pytree/assert helpers, judged by NumPy oracles.",
+             text="Exploration: random nests (dict/list/tuple/namedtuple, rank 0-3, bool/int/float) and stacked real states of the 23 environments through transpose/slice/add_element/is_equal_pytree/assert helpers (NumPy and JAX leaves, wider element dtypes, promotion-lossy cross-dtype pairs, signed zeros), judged by NumPy / exact Python oracles.",
              note="NaN leaves are not generated.", ref="§3 C19"),
 }
 READY = [f"C{i:02d}" for i in range(1, 20)]
